@@ -226,6 +226,29 @@ pub enum Shape {
     Seq(Vec<Shape>),
 }
 impl Shape {
+    /// the leaf a (sub)tree begins with
+    pub fn first_leaf(&self) -> Option<usize> {
+        match self {
+            Shape::Leaf(t) => Some(*t),
+            Shape::Par(cs) | Shape::Seq(cs) => cs.iter().find_map(|c| c.first_leaf()),
+        }
+    }
+    /// the leaves that open the first two (non-empty) children of the first par node that has two:
+    /// both can begin the moment that node is reached
+    pub fn par_pair(&self) -> Option<(usize, usize)> {
+        match self {
+            Shape::Leaf(_) => None,
+            Shape::Par(cs) => {
+                let firsts: Vec<usize> = cs.iter().filter_map(|c| c.first_leaf()).collect();
+                if firsts.len() >= 2 {
+                    Some((firsts[0], firsts[firsts.len() - 1]))
+                } else {
+                    cs.iter().find_map(|c| c.par_pair())
+                }
+            }
+            Shape::Seq(cs) => cs.iter().find_map(|c| c.par_pair()),
+        }
+    }
     pub fn tokens(&self, out: &mut Vec<String>) {
         match self {
             Shape::Leaf(t) => out.push(t.to_string()),
@@ -344,7 +367,9 @@ pub struct RunCfg {
     /// 0 = dispatch called from outside the pool, 1 = from one of its workers (`pool.install`),
     /// 2 = from a worker of a different pool
     pub mode: u8,
-    /// 0 = no holds, 1 = random holds inside `run`, 2 = rendezvous of two systems (bounded wait)
+    /// 0 = no holds, 1 = random holds inside `run`, 2 = rendezvous of two systems (bounded wait),
+    /// 3 = the leaves that open two children of a par node wait for each other (long bound): on a pool of
+    /// two or more threads they must be inside `run` together in at least one dispatch of the series
     pub sync: u8,
     /// dispatches after every setup call
     pub reps: u32,
@@ -468,7 +493,7 @@ impl Case {
             return None;
         }
         for r in &runs {
-            if ![1, 2, 4, 8].contains(&r.pool) || r.mode > 2 || r.sync > 2 {
+            if ![1, 2, 4, 8].contains(&r.pool) || r.mode > 2 || r.sync > 3 {
                 return None;
             }
         }
@@ -616,7 +641,7 @@ pub struct Pools {
 impl Pools {
     pub fn new() -> Pools {
         let mk = |n: usize| rayon::ThreadPoolBuilder::new().num_threads(n).build().unwrap();
-        Pools { pools: [1usize, 2, 4, 8].iter().map(|&n| (n, Arc::new(mk(n)))).collect(), other: mk(2) }
+        Pools { pools: [1usize, 2, 4, 8].iter().map(|&n| (n, Arc::new(mk(n)))).collect(), other: mk(1) }
     }
 }
 
@@ -1113,6 +1138,9 @@ fn drive<P: Borrow<rayon::ThreadPool> + Send>(mut ps: ParSeq<P, Dyn>, cx: &RunCt
 fn dispatches<P: Borrow<rayon::ThreadPool> + Send>(ps: &mut ParSeq<P, Dyn>, cx: &RunCtx, res: &mut CaseResult, mut drv: Option<&mut Drv>, world: &World, via_trait: bool, k: usize, call: &str) -> bool {
     let (case, leaves, shared, rc, pools, tune) = (cx.case, cx.leaves, cx.shared, cx.rc, cx.pools, cx.tune);
     let pool: &rayon::ThreadPool = &pools.pools[&rc.pool];
+    // "children of a par node may overlap", for this very tree, pool and caller
+    let pair = if rc.sync == 3 && rc.pool >= 2 { case.shape.par_pair() } else { None };
+    let mut met = 0u32;
     {
         for rep in 0..rc.reps {
             shared.reset_state();
@@ -1127,9 +1155,18 @@ fn dispatches<P: Borrow<rayon::ThreadPool> + Send>(ps: &mut ParSeq<P, Dyn>, cx: 
                         b.rendezvous.store(2, SeqCst);
                         b.hold_us.store(hr.below(tune.hold_us / 4 + 1), SeqCst);
                     }
+                    3 => {
+                        if let Some((x, y)) = pair {
+                            if t == x || t == y {
+                                b.rendezvous.store(2, SeqCst);
+                                b.partner.store(1 + if t == x { y } else { x }, SeqCst);
+                            }
+                        }
+                    }
                     _ => {}
                 }
             }
+            shared.rendezvous_timeout_us.store(if pair.is_some() { 2_500_000 } else { tune.rdv_timeout_us }, SeqCst);
             let w = world;
             let out = catch_unwind(AssertUnwindSafe(|| match rc.mode {
                 0 if via_trait => shred::RunNow::run_now(ps, w),
@@ -1156,6 +1193,17 @@ fn dispatches<P: Borrow<rayon::ThreadPool> + Send>(ps: &mut ParSeq<P, Dyn>, cx: 
             if let Some(b) = bad.first() {
                 res.impl_v.push(("seq-order".into(), format!("{} {}", b, ctx)));
                 return false;
+            }
+            if let Some((x, y)) = pair {
+                if let (Some(&(fx, dx)), Some(&(fy, dy))) = (win.get(&x), win.get(&y)) {
+                    if fx < dy && fy < dx {
+                        met += 1;
+                    }
+                }
+                if rep + 1 == rc.reps && met == 0 {
+                    res.impl_v.push(("par-overlap".into(), format!("leaves {} and {} open two children of one par node and wait for each other (up to 2.5 s), yet in {} dispatches they were never inside run together: the children of this par node cannot overlap {}", x, y, rc.reps, ctx)));
+                    return false;
+                }
             }
             let ov = overlap_stats(&case.shape, &win);
             let e = res.overlap.entry(rc.pool).or_insert((0, 0, 0, 0));
@@ -1394,7 +1442,7 @@ pub fn gen_case(seed: u64, idx: u64, cfg: &GenCfg) -> (Case, u8, Option<u8>) {
         runs.push(RunCfg {
             pool: *g.rng.pick(&[1usize, 2, 4, 4, 8, 8]),
             mode: *g.rng.pick(&[0u8, 0, 1, 1, 2]),
-            sync: *g.rng.pick(&[0u8, 1, 1, 1, 2]),
+            sync: *g.rng.pick(&[0u8, 1, 1, 1, 2, 3, 3]),
             reps: cfg.reps,
             hseed: g.rng.next() % 1_000_000,
             script,
@@ -1628,6 +1676,70 @@ mod zst {
     fn counts(n: usize) -> Vec<u64> {
         RUNS[..n].iter().map(|r| r.load(SeqCst)).collect()
     }
+    // statically typed trees whose leaves carry every running-time hint (the tree has no use for it):
+    // two leaves that open two children of a par node wait for each other (bounded) and must meet
+    use std::sync::atomic::AtomicBool;
+    pub static ENTERED: [AtomicBool; 4] = [AtomicBool::new(false), AtomicBool::new(false), AtomicBool::new(false), AtomicBool::new(false)];
+    pub static MET: [AtomicBool; 4] = [AtomicBool::new(false), AtomicBool::new(false), AtomicBool::new(false), AtomicBool::new(false)];
+    /// leaf K with hint T; K = 0 and K = 1 wait for each other, the others do nothing
+    pub struct H<const K: usize, const T: u8>;
+    impl<'a, const K: usize, const T: u8> System<'a> for H<K, T> {
+        type SystemData = ();
+        fn run(&mut self, _: ()) {
+            ENTERED[K].store(true, SeqCst);
+            if K < 2 {
+                let t = std::time::Instant::now();
+                while !ENTERED[1 - K].load(SeqCst) && t.elapsed() < std::time::Duration::from_millis(2500) {
+                    std::thread::yield_now();
+                }
+                MET[K].store(ENTERED[1 - K].load(SeqCst), SeqCst);
+            }
+        }
+        fn running_time(&self) -> shred::RunningTime {
+            crate::sys::rt(T)
+        }
+    }
+    pub fn check_overlap() -> (u64, Vec<String>) {
+        let mut bad = vec![];
+        let mut experiments = 0u64;
+        for threads in [2usize, 4] {
+            let pool = rayon::ThreadPoolBuilder::new().num_threads(threads).build().unwrap();
+            for inside in [false, true] {
+                let w = World::empty();
+                macro_rules! go {
+                    ($name:expr, $tree:expr) => {{
+                        let mut ps = ParSeq::new($tree, &pool);
+                        let mut met = false;
+                        for _ in 0..2 {
+                            for k in 0..4 {
+                                ENTERED[k].store(false, SeqCst);
+                                MET[k].store(false, SeqCst);
+                            }
+                            if inside {
+                                pool.install(|| ps.dispatch(&w))
+                            } else {
+                                ps.dispatch(&w)
+                            }
+                            met |= MET[0].load(SeqCst) && MET[1].load(SeqCst);
+                            if met {
+                                break;
+                            }
+                        }
+                        experiments += 1;
+                        if !met {
+                            bad.push(format!("{} on a pool of {} threads, called from {} the pool: leaves 0 and 1 open two children of the par node and wait for each other (up to 2.5 s), yet in 2 dispatches they were never inside run together", $name, threads, if inside { "inside" } else { "outside" }));
+                        }
+                    }};
+                }
+                go!("par![H0(Average), H1(VeryShort)]", shred::par![H::<0, 3>, H::<1, 1>,]);
+                go!("par![H0(VeryShort), H1(VeryLong)]", shred::par![H::<0, 1>, H::<1, 5>,]);
+                go!("par![H0(Short), H2(Long), H1(VeryShort)]", shred::par![H::<0, 2>, H::<2, 4>, H::<1, 1>,]);
+                go!("par![seq![H0(Average), H2(VeryShort)], seq![H1(VeryShort), H3(VeryShort)]]", shred::par![shred::seq![H::<0, 3>, H::<2, 1>,], shred::seq![H::<1, 1>, H::<3, 1>,],]);
+                go!("seq![H2(VeryLong), par![H1(VeryShort), H0(VeryShort)]]", shred::seq![H::<2, 5>, shred::par![H::<1, 1>, H::<0, 1>,],]);
+            }
+        }
+        (experiments, bad)
+    }
     /// (description, counts seen, counts expected) for every configuration that went wrong
     pub fn check() -> (u64, Vec<String>) {
         let mut bad = vec![];
@@ -1676,6 +1788,11 @@ pub fn run(args: &Args, rep: &mut Report) {
         rep.add("static_trees_of_zero_sized_leaves_dispatched", n);
         if let Some(b) = bad.first() {
             rep.violate(PROP, "impl", "", format!("{} (expected 3 each)", b), vec!["static-zst-trees".to_string()]);
+        }
+        let (n, bad) = zst::check_overlap();
+        rep.add("static_trees_with_hints_whose_par_children_must_meet", n);
+        if let Some(b) = bad.first() {
+            rep.violate(PROP, "impl", "", b.clone(), vec!["static-zst-trees".to_string()]);
         }
         if args.get("replay").is_some() {
             return;
